@@ -196,3 +196,59 @@ class RecoverBounded:
         r1 = pow(sig.r, -1, n)
         Q = C.add(C.mul(r1 * sig.s % n, K), C.neg(C.mul(r1 * c % n, C.G)))
         return tuple(result) == tuple(Q)
+
+
+# ---------------------------------------------------------------- Bitcoin message signing, both arms
+def bms_run(msg, d, compressed, addr_kind, tamper):
+    """sign a message for the address of a key; verify it; verify an altered one.  Returns the
+    serialized signature and the two verdicts"""
+    from btclib import b32, b58
+    from btclib.ecc import bms
+    from spec.ec_ref import SECP256K1 as C, sec_compressed
+    P = C.mul(d, C.G)
+    pub = sec_compressed(P) if compressed else b"\x04" + P[0].to_bytes(32, "big") + P[1].to_bytes(32, "big")
+    wif_payload = b"\x80" + d.to_bytes(32, "big") + (b"\x01" if compressed else b"")
+    from spec.base58_ref import check_encode
+    wif = check_encode(wif_payload)
+    addr = {"p2pkh": lambda: b58.p2pkh(pub), "p2wpkh": lambda: b32.p2wpkh(pub), "p2wpkh-p2sh": lambda: b58.p2wpkh_p2sh(pub)}[addr_kind]()
+    sig = bms.sign(msg, wif, addr)
+    ok = bms.verify(msg, addr, sig)
+    ser = sig.serialize()
+    if tamper == "msg":
+        bad = bms.verify(msg + b"!", addr, sig)
+    elif tamper == "s":
+        alt = bytearray(ser)
+        alt[-1] ^= 1
+        bad = bms.verify(msg, addr, bytes(alt))
+    elif tamper == "flag":
+        alt = bytearray(ser)
+        alt[0] = 27 + ((alt[0] - 27) ^ 1) if alt[0] < 35 else alt[0] ^ 1
+        bad = bms.verify(msg, addr, bytes(alt))
+    else:
+        other = b58.p2pkh(sec_compressed(C.mul(d % (C.n - 1) + 1, C.G)))
+        bad = bms.verify(msg, other, sig)
+    return ser, ok, bad, addr if isinstance(addr, str) else addr.decode()
+
+
+def _gen_bms(rng):
+    compressed = rng.random() < 0.7
+    kind = rng.choice(["p2pkh", "p2wpkh", "p2wpkh-p2sh"]) if compressed else "p2pkh"
+    return dict(msg=rng.choice([b"", b"hello", "ciao €".encode(), bytes(rng.getrandbits(8) for _ in range(rng.randrange(1, 300)))]),
+                d=rng.choice([1, 2, secp256k1.n - 1, rng.randrange(1, secp256k1.n)]), compressed=compressed, addr_kind=kind, tamper=rng.choice(["msg", "s", "flag", "addr"]))
+
+
+@contract("contracts.c_dsa.bms_run", gen=_gen_bms, props="C02 C04", both_arms=True, n_quick=150, n_thorough=3000,
+          rule="messages of 0..300 bytes; compressed and uncompressed keys; p2pkh, p2wpkh, p2wpkh-p2sh addresses; one alteration of message, s, recovery flag or address")
+class BmsBounded:
+    """the 65-byte signature is [flag][r][s] with (r, s) an ECDSA signature, by the reference
+    verifier, of sha256d(varbytes('Bitcoin Signed Message:\\n') || varbytes(msg)) under the key;
+    it verifies for its address and for no altered input; the same bytes on both arms"""
+
+    def post_is_ecdsa_over_the_envelope(msg, d, result):
+        from spec.codec import enc_varbytes
+        from spec.ec_ref import SECP256K1 as C
+        ser, ok, bad, addr = result
+        magic = b"Bitcoin Signed Message:\n"
+        h = hashlib.sha256(hashlib.sha256(enc_varbytes(magic) + enc_varbytes(msg)).digest()).digest()
+        r, s = int.from_bytes(ser[1:33], "big"), int.from_bytes(ser[33:], "big")
+        return len(ser) == 65 and ok is True and bad is False and ref.verify(C, int.from_bytes(h, "big") % C.n, C.mul(d, C.G), r, s)
